@@ -100,7 +100,12 @@ def case(chk, g, r, mode):
         assume["sym_tensors"] = [name]
     elif bk == -1:
         assume["antisym_tensors"] = [name]
-    expr = Expr(total, target_idx=tsyms, **assume)
+    # scalars: with an explicitly empty target declaration (what
+    # diagonalize_fock / expand_intermediates leave behind) or none at all
+    if not tsyms and r.random() < 0.5:
+        expr = Expr(total, **assume)
+    else:
+        expr = Expr(total, target_idx=tsyms, **assume)
     pre_copy = Expr(expr.sympy, **expr.assumptions)
     if mode == "remove":
         res, exc = guarded(remove_tensor, expr, name)
